@@ -229,6 +229,15 @@ def run(ctx):
               (b"h /p 0\r\n", b"", False), (b"h /p 0\r\n", b"", True), (b"gemini://h/\r\n", b"", False),
               (b"gemini://h/\r\n", b"", True), (b"/x\t+\r\n", b"", True), (b"/x\t$\r\n", b"", False),
               (b"GET / HTTP/1.0\r\n", b"", True), (b"/a\tq\t!\r\n", b"", False), (b"/a\tb\tc\td\r\n", b"", False)]
+    # header lines around and beyond 8 KiB (the WML type at the end of a long Accept list; a long header before the ones
+    # that matter, of a length that is a multiple of a likely buffer size; header-shaped text deep inside an opaque header)
+    wml = b"text/vnd.wap.wml"
+    for total in (4095, 8190, 8191, 8192, 8193, 16384, 40000):
+        pad = total - len(b"Accept: ") - len(wml) - 2
+        acc = b"Accept: " + (b"text/html, " * (pad // 11 + 1))[:pad] + b", " + wml
+        corpus.append((b"GET /hello.txt HTTP/1.0\r\n", acc + b"\r\nX-Wap-Profile: http://x\r\n\r\n", False))
+        corpus.append((b"GET /hello.txt HTTP/1.0\r\n", b"Cookie: " + b"c" * (total - 8) + b"\r\nAccept: a, " + wml + b"\r\nX-Wap-Profile: p\r\n\r\n", False))
+        corpus.append((b"GET /hello.txt HTTP/1.0\r\n", b"X-Opaque: " + b"o" * (total - 10) + b"x-wap-profile: 1\r\nAccept: a, " + wml + b"\r\n\r\n", False))
     cases = [(l, r, t, list(shipped)) for (l, r, t) in corpus] + cases
     lines = []
     impl = []
